@@ -293,6 +293,145 @@ def ms7(p, res):
     return n
 
 
+# ------------------------------------------------------------------ MS-8
+# kernel name -> (index of `rows`, index of the source slice, index of the stride parameter, scalars per row = factor * stride parameter)
+ROW_KERNELS = {"reim4_extract_1blk_contiguous": (1, 4, 0, 2), "ntt_extract_1blk_contiguous": (1, 4, 0, 4), "i64_extract_1blk_contiguous": (2, 5, 0, 1)}
+OBJ_VIEW = ("to_mut", "to_ref", "raw", "raw_mut", "deref", "deref_mut", "as_ref", "as_mut", "borrow", "borrow_mut", "into", "from", "data", "data_mut", "index", "index_mut")
+
+
+def _single_atom(key):
+    if len(key) == 1 and key[0][1] == 1 and len(key[0][0]) == 1:
+        return key[0][0][0]
+    return None
+
+
+def key_le(a, b):
+    """a <= b for canonical polynomial keys, by min/max structure only"""
+    if a == b:
+        return True
+    aa, bb = _single_atom(a), _single_atom(b)
+    if bb is not None and bb[0] == "f" and bb[1] == "min" and len(bb[2]) == 2:
+        return key_le(a, bb[2][0]) and key_le(a, bb[2][1])
+    if aa is not None and aa[0] == "f" and aa[1] == "min" and len(aa[2]) == 2:
+        return key_le(aa[2][0], b) or key_le(aa[2][1], b)
+    if bb is not None and bb[0] == "f" and bb[1] == "max" and len(bb[2]) == 2:
+        return key_le(a, bb[2][0]) or key_le(a, bb[2][1])
+    return False
+
+
+def ms8(p, res):
+    """block-extraction kernels: the number of rows read is bounded by the limbs the source view holds (followed to the take / slice that created it)"""
+    callers = {}
+    for f in p.lib_fns():
+        for bi, t in f.calls():
+            for x in p.targets(f, t):
+                callers.setdefault(x, []).append((f, bi, t))
+    flows = {}
+
+    def flow_of(f):
+        if f.uid not in flows:
+            flows[f.uid] = Flow(f, transparent=OBJ_VIEW)
+        return flows[f.uid]
+
+    def resolve(f, op, stack, depth=0):
+        """yield (frames top->down, source) ; frames = [(fn, call terminator into the next frame)]"""
+        out = []
+        for r in flow_of(f).op_roots(op):
+            if r[0] == "call":
+                t = f.blocks[r[1]]["t"]
+                nm = (f.callee_def(t) or {}).get("n", "")
+                if nm.startswith("take_vec_znx_dft") or nm.startswith("take_vec_znx"):
+                    out.append((stack, ("take", f, t)))
+                else:
+                    out.append((stack, ("unknown", f, "result of %s" % nm)))
+            elif r[0] == "param":
+                ty = f.local_ty(r[1])["s"]
+                if ty.startswith(("&[", "&mut [")):
+                    out.append((stack, ("slice", f, r[1])))
+                elif depth < 4 and callers.get(f.uid):
+                    for (c, bi, ct) in callers[f.uid]:
+                        if c.is_test() or r[1] - 1 >= len(ct["a"]):
+                            continue
+                        out.extend(resolve(c, ct["a"][r[1] - 1], [(c, ct)] + stack, depth + 1))
+                else:
+                    out.append((stack, ("unknown", f, "parameter %d without a resolvable caller" % r[1])))
+            else:
+                out.append((stack, ("unknown", f, str(r[0]))))
+        return out
+
+    n = 0
+    for f in sorted(p.lib_fns(), key=lambda x: x.uid):
+        if f.in_trait or f.trait_item:
+            continue  # the HAL forwarding layer passes rows/src through unchanged
+        for bi, t in f.calls():
+            nm = (f.callee_def(t) or {}).get("n")
+            if nm not in ROW_KERNELS:
+                continue
+            ri, si, mi, fac = ROW_KERNELS[nm]
+            # source is a layout object of this frame and rows is bounded by its own size()
+            own = flow_of(f).op_roots(t["a"][si])
+            if own and all(r[0] == "param" and not f.local_ty(r[1])["s"].startswith(("&[", "&mut [")) for r in own):
+                sm0 = Sym(f, Flow(f))
+                rows0 = sm0.operand(t["a"][ri])
+                if all(key_le(rows0.key(), Poly.atom(("f", "size", (Poly.atom(("p", r[1], ())).key(),))).key()) for r in own):
+                    n += 1
+                    res.ok("MS-8", {"site": f.where(t["l"]), "chain": nm + "<-" + f.name, "rows": repr(rows0), "bound": "size() of the source operand"})
+                    continue
+            for stack, src in resolve(f, t["a"][si], []):
+                n += 1
+                # symbolic frames, top-down
+                sym = None
+                frames = stack + [(f, None)]
+                syms = []
+                for k, (fr, ct) in enumerate(frames):
+                    subst = {}
+                    if k > 0:
+                        pf, pct = frames[k - 1]
+                        for ai, a in enumerate(pct["a"]):
+                            subst[(ai + 1, ())] = syms[k - 1].operand(a)
+                    syms.append(Sym(fr, Flow(fr), param_subst=subst))
+                rows = syms[-1].operand(t["a"][ri])
+                desc = "%s<-%s" % (nm, "<-".join(fr.name for fr, _ in reversed(frames)))
+                if src[0] == "take":
+                    tt = src[2]
+                    top = syms[0] if src[1].uid == frames[0][0].uid else None
+                    if top is None:
+                        res.undec("MS-8", "%s: frame mismatch" % desc)
+                        continue
+                    bound = top.operand(tt["a"][-1]) * top.operand(tt["a"][-2])
+                    if key_le(rows.key(), bound.key()) or key_le(rows.key(), top.operand(tt["a"][-1]).key()):
+                        res.ok("MS-8", {"site": f.where(t["l"]), "chain": desc, "rows": repr(rows), "source_limbs": repr(bound)})
+                    else:
+                        res.bad("MS-8", f.pretty, "rows-exceed-source:%s" % desc,
+                                "%s reads `%r` rows through %s from a temporary that %s creates with `%r` limbs: rows is not bounded by the limbs of the source view"
+                                % (f.pretty, rows, nm, src[1].pretty, bound), site=f.where(t["l"]))
+                elif src[0] == "slice":
+                    if src[1].uid != f.uid:
+                        res.undec("MS-8", "%s: slice source in an outer frame" % desc)
+                        continue
+                    sm = syms[-1]
+                    ln = Poly.atom(("f", "len", (Poly.atom(("p", src[2], ())).key(),)))
+                    c = rows.const_value()
+                    if c is not None and c <= 1:
+                        res.undec("MS-8", "%s: single-row extraction from a caller-sized slice" % desc)
+                        continue
+                    # rows = min(.., len(src)/n) with m = n >> 1
+                    m = sm.operand(t["a"][mi])
+                    ma = _single_atom(m.key())
+                    strides = [(m * Poly.const(fac)).key()]
+                    if fac == 2 and ma is not None and ma[0] == "f" and ma[1] == "Shr" and ma[2][1] == Poly.const(1).key():
+                        strides.append(ma[2][0])
+                    ok = any(key_le(rows.key(), Poly.atom(("f", "Div", (ln.key(), sk))).key()) for sk in strides)
+                    if ok:
+                        res.ok("MS-8", {"site": f.where(t["l"]), "chain": desc, "rows": repr(rows), "bound": "len(src)/n"})
+                    else:
+                        res.bad("MS-8", f.pretty, "rows-exceed-source:%s" % desc,
+                                "%s reads `%r` rows through %s from a slice whose length does not bound it (expected min(.., len(src)/n) with m = n>>1)" % (f.pretty, rows, nm), site=f.where(t["l"]))
+                else:
+                    res.undec("MS-8", "%s: source %s" % (desc, src[2]))
+    return n
+
+
 def run(res, tier):
     res.level = "other"
     res.explanation = ("Memory safety of every admissible call is a whole-program numeric fact; decided here are the structural invariants the unchecked accessors rely on: (MS-7) the raw "
@@ -304,6 +443,7 @@ def run(res, tier):
     res.rule("MS-1", "construction sites of layout types match an enumerated idiom; a re-view never alters a dimension of the object it wraps")
     res.rule("MS-2", "stores to n/cols/size/max_size/rows/cols_in/cols_out of layout types occur only in set_size (dominated by a max_size comparison) and read_from")
     res.rule("MS-7", "at_ptr/at_mut_ptr: offset(i = cols-1, j = size-1) + n <= n*cols*size with unconditional asserts on i, j; at/raw slice lengths are n / n*poly_count; poly_count = rows*cols*size")
+    res.rule("MS-8", "block-extraction kernels (reim4_extract_1blk_contiguous): the row count is bounded, through min/max structure, by the limbs of the source view as created by the take (followed up the call chain) or by len(src)/n")
     res.rule("SER-1", "leaf readers: tainted arithmetic / slice bounds validated (shared with C18)")
     res.rule("SER-2", "leaf readers: dimension commits validated against the receiver's buffer (shared with C18)")
     res.rule("SC-5", "only the scratch carver builds scratch views from raw bytes (shared with C12)")
@@ -322,6 +462,8 @@ def run(res, tier):
         res.floor("MS-2", "dimension stores", n2, 10)
         n7 = ms7(p, res)
         res.floor("MS-7", "accessor obligations", n7, 7)
+        n8 = ms8(p, res)
+        res.floor("MS-8", "row-kernel call sites x source chains", n8, 6)
         # leaf readers
         rd, wrt = c18.readers_writers(p)
         for k in sorted(rd):
